@@ -224,6 +224,22 @@ func (c *caseGen) step() {
 			return
 		}
 		c.op("close %s", ep)
+	case k < 99:
+		// the counter crosses a byte boundary of its big-endian encoding (2^8k) or sits near 2^63
+		ep, i, srv := c.ep()
+		base := uint64(1) << (8 * uint(1+r.Intn(7)))
+		if r.Chance(1, 6) {
+			base = (uint64(1) << 63) - 600
+		}
+		c.op("setctr %s %d", ep, base-uint64(1+r.Intn(3)))
+		for j := 0; j < 5; j++ {
+			l := c.op("wr %s %d %d", ep, 8, 1+r.Intn(5))
+			c.pkts = append(c.pkts, pktInfo{fmt.Sprintf("%d.0", l), i, srv, 8})
+			p := c.pkts[len(c.pkts)-1]
+			to, from := c.honest(p)
+			c.op("dlv %s %d %s none", to, from, p.ref)
+		}
+		c.op("rd %s", map[bool]string{true: fmt.Sprintf("C%d", i), false: fmt.Sprintf("S%d", i)}[srv])
 	default: // burst: push the counter far ahead, deliver only the last
 		ep, i, srv := c.ep()
 		nb := Pick(r, []int{60, 70, 130, 450, 520})
